@@ -152,16 +152,46 @@ func runC03(c *kit.Ctx) {
 			}
 		}
 		hasClose, hasDrain := false, false
+		var closeDone, connClose, drain ssa.Instruction
 		kit.Instrs(lit, func(in ssa.Instruction) {
 			if call, ok := in.(*ssa.Call); ok {
 				if kit.CalleeName(call) == "(net.Conn).Close" && isLoadOfField(call.Call.Value, connF) {
 					hasClose = true
+					connClose = call
 				}
 				if kit.CalleeName(call) == kit.M("region", "*client", "failSentRPCs") {
 					hasDrain = true
+					drain = call
+				}
+				if kit.CalleeName(call) == "builtin.close" && isLoadOfField(call.Call.Args[0], doneF) {
+					closeDone = call
 				}
 			}
 		})
+		// order: signal, close the connection, then drain. A sender that registers a call after
+		// the drain must find the connection closed (its write fails and it completes the call
+		// itself); draining first leaves a window in which a call is written to a live socket
+		// of a dead client and is never completed.
+		okOrder := closeDone != nil && connClose != nil && drain != nil &&
+			closeDone.Block().Dominates(connClose.Block()) && (closeDone.Block() != connClose.Block() || kit.InstrIndex(closeDone) < kit.InstrIndex(connClose)) &&
+			!kit.Reaches(drain, connClose) && kit.Reaches(connClose, drain)
+		if okOrder {
+			// no path from the literal's entry reaches the drain without having passed the close (or conn == nil)
+			e := kit.PathFromEntry(lit, kit.PathQuery{
+				Target: func(x ssa.Instruction) bool { return x == drain },
+				Stop:   func(x ssa.Instruction) bool { return x == connClose },
+				SkipEdge: func(from, to *ssa.BasicBlock) bool {
+					for _, f := range kit.EdgeFacts(from, to) {
+						if cmp, ok := kit.CanonCmp(f.Cond, f.Pol); ok && cmp.Op == token.EQL && kit.IsNilConst(cmp.Y) && isLoadOfField(cmp.X, connF) {
+							return true
+						}
+					}
+					return false
+				},
+			})
+			okOrder = e == nil
+		}
+		c.Check(okOrder, lit, "transition-order", lit.Pos(), "close(done), then conn.Close(), then the drain of the sent table", "the failure transition drains the sent table before the connection is closed (or signals after closing): a call registered in between is written to a live socket of a dead client and never completed")
 		c.Check(hasClose, lit, "conn-close", lit.Pos(), "the transition closes the connection", "the failure transition no longer closes the connection")
 		c.Check(hasDrain, lit, "drain", lit.Pos(), "the transition drains the sent table", "the failure transition no longer fails the sent calls")
 		for _, s := range callersOf(p, kit.M("region", "*client", "failSentRPCs")) {
@@ -453,6 +483,21 @@ func runC03(c *kit.Ctx) {
 	// ---- R6 ---------------------------------------------------------------
 	c.StartRule("R6", "reader errors are connection failures", 6)
 	readerErrorsAreFatal(c, recv)
+	// direct completions in receive (outside the deferred one) happen on connection failures:
+	// they and the error returned with them must be of the connection-level class
+	for _, call := range kit.Calls(recv, kit.M("region", "", "returnResult")) {
+		ev := call.Common().Args[2]
+		good := isServerErrorValue(p, ev)
+		// the function must then return a ServerError as well (so that the reader loop fails the client)
+		if good {
+			e := kit.PathFrom(call, kit.PathQuery{Target: func(x ssa.Instruction) bool {
+				r, ok := x.(*ssa.Return)
+				return ok && !isServerErrorValue(p, returnedError(r))
+			}})
+			good = e == nil
+		}
+		c.Check(good, recv, "failure-completion-class", call.Pos(), "a call completed on a connection failure gets a ServerError, and receive returns one", "a call is completed on a connection failure with an error that is not of the connection-level class (it will not be retried elsewhere), or receive does not report the failure as a ServerError")
+	}
 	// receiveRPCs fails the client on ServerError and stops
 	{
 		good := false
